@@ -177,12 +177,70 @@ pub type RigResult<T> = Result<T, RigError>;
 pub struct Reservation {
     pub addr: SocketAddr,
     fd: RawFd,
+    /// UDP reservations are dropped as soon as sozu has bound the port while
+    /// sozu keeps listening on it: their registry claim is kept until the
+    /// process exits so that the port is not handed out a second time.
+    keep_claim: bool,
 }
 
 impl Drop for Reservation {
     fn drop(&mut self) {
         unsafe {
             libc::close(self.fd);
+        }
+        if !self.keep_claim {
+            release_port(self.addr.port());
+        }
+    }
+}
+
+// A port-0 bind of a SO_REUSEPORT socket may be given a port that another
+// SO_REUSEPORT socket of the same uid already holds (in this process or in
+// another harness process): two rigs would then share a listening port and the
+// kernel would spread connections between two workers. Ports handed out by
+// `reserve` are therefore claimed in a small cross-process registry
+// (`$TMPDIR/verif-rig-ports/<port>` created with O_EXCL, holding the owner's
+// pid; entries of dead processes are reclaimed).
+fn port_registry_dir() -> std::path::PathBuf {
+    let d = std::env::temp_dir().join("verif-rig-ports");
+    let _ = std::fs::create_dir_all(&d);
+    d
+}
+
+fn claim_port(port: u16) -> bool {
+    use std::io::Write as _;
+    let path = port_registry_dir().join(port.to_string());
+    for _ in 0..2 {
+        match std::fs::OpenOptions::new().write(true).create_new(true).open(&path) {
+            Ok(mut f) => {
+                let _ = write!(f, "{}", std::process::id());
+                return true;
+            }
+            Err(_) => {
+                // stale entry of a dead process?
+                let owner = std::fs::read_to_string(&path)
+                    .ok()
+                    .and_then(|s| s.trim().parse::<i32>().ok());
+                match owner {
+                    Some(pid) if pid as u32 != std::process::id() && unsafe { libc::kill(pid, 0) } != 0 => {
+                        let _ = std::fs::remove_file(&path);
+                    }
+                    None => {
+                        let _ = std::fs::remove_file(&path);
+                    }
+                    _ => return false,
+                }
+            }
+        }
+    }
+    false
+}
+
+fn release_port(port: u16) {
+    let path = port_registry_dir().join(port.to_string());
+    if let Ok(s) = std::fs::read_to_string(&path) {
+        if s.trim().parse::<u32>().ok() == Some(std::process::id()) {
+            let _ = std::fs::remove_file(&path);
         }
     }
 }
@@ -228,6 +286,23 @@ fn local_addr_of(fd: RawFd) -> io::Result<SocketAddr> {
 }
 
 fn reserve(kind: i32) -> io::Result<Reservation> {
+    let mut held: Vec<Reservation> = Vec::new(); // keep duplicates bound while retrying
+    for _ in 0..64 {
+        let r = reserve_once(kind)?;
+        if claim_port(r.addr.port()) {
+            // the retried duplicates are dropped without touching the registry entry
+            // of their (foreign) owner: release_port only removes our own entries,
+            // and the port of `r` differs from theirs
+            drop(held);
+            return Ok(r);
+        }
+        held.push(Reservation { addr: SocketAddr::from(([127, 0, 0, 1], 0)), fd: r.fd, keep_claim: true });
+        std::mem::forget(r);
+    }
+    Err(io::Error::new(io::ErrorKind::AddrInUse, "no unclaimed port after 64 attempts"))
+}
+
+fn reserve_once(kind: i32) -> io::Result<Reservation> {
     let fd = unsafe { libc::socket(libc::AF_INET, kind | libc::SOCK_CLOEXEC, 0) };
     if fd < 0 {
         return Err(io::Error::last_os_error());
@@ -250,7 +325,7 @@ fn reserve(kind: i32) -> io::Result<Reservation> {
         local_addr_of(fd)
     })();
     match res {
-        Ok(addr) => Ok(Reservation { addr, fd }),
+        Ok(addr) => Ok(Reservation { addr, fd, keep_claim: kind == libc::SOCK_DGRAM }),
         Err(e) => {
             unsafe { libc::close(fd) };
             Err(e)
